@@ -98,6 +98,25 @@ use std::path::{Path, PathBuf};
 use std::sync::Arc;
 use std::time::{Duration, Instant};
 
+/// (round 6) set by the panic hook when a tx-pool service task of the REAL code panics with "invalid key" inside
+/// PoolMap's multi-index map (tx-pool/src/component/pool_map.rs): the map is inconsistent from then on (entries
+/// that no index finds, index keys without an entry) and the pool no longer follows the chain. SUSPECTED defect of
+/// /repo found in round 6 (seeded/C12/findings-round6/finding-pool-map-invalid-key-seed12345-case4.ops), reported to
+/// the coordinator; until it is listed or repaired the rest of such a case is counted, not judged.
+static POOL_MAP_PANIC: std::sync::atomic::AtomicBool = std::sync::atomic::AtomicBool::new(false);
+
+fn install_panic_watch() {
+    let prev = std::panic::take_hook();
+    std::panic::set_hook(Box::new(move |info| {
+        let at_pool_map = info.location().map_or(false, |l| l.file().ends_with("tx-pool/src/component/pool_map.rs"));
+        let msg = info.payload().downcast_ref::<&str>().map(|s| s.to_string()).or_else(|| info.payload().downcast_ref::<String>().cloned()).unwrap_or_default();
+        if at_pool_map && msg.contains("invalid key") {
+            POOL_MAP_PANIC.store(true, std::sync::atomic::Ordering::SeqCst);
+        }
+        prev(info);
+    }));
+}
+
 pub struct PNode {
     pub shared: Shared,
     chain: Option<ChainServiceScope>,
@@ -242,6 +261,7 @@ fn list<T: ToString + Ord>(mut v: Vec<T>) -> String {
 
 impl World {
     fn new(base: &Path, case: u64, cfg: Cfg) -> World {
+        POOL_MAP_PANIC.store(false, std::sync::atomic::Ordering::SeqCst);
         let dir = base.join(format!("case-{case}"));
         let _ = std::fs::remove_dir_all(&dir);
         std::fs::create_dir_all(&dir).unwrap();
@@ -412,6 +432,11 @@ impl World {
 /// one chain change: pool before, chain before, then the block(s); evaluates oracle + emits model lines
 fn after_chain_change(w: &mut World, out: &mut Out, pre: &Pre) {
     w.sync_pool(out);
+    if POOL_MAP_PANIC.load(std::sync::atomic::Ordering::SeqCst) {
+        // the real pool map is corrupted (see POOL_MAP_PANIC): counted until the coordinator lists or repairs it
+        out.count("suspected-chain-change-after-pool-map-invalid-key-panic");
+        return;
+    }
     let old_chain = &pre.chain;
     let new_chain = w.main_chain();
     let post = w.dump();
@@ -751,6 +776,11 @@ fn after_chain_change(w: &mut World, out: &mut Out, pre: &Pre) {
 /// the property on the implementation for the released transaction.
 fn release_paused(w: &mut World, out: &mut Out) {
     let Some((tid, handle, pre_tip, pre_stage)) = w.paused.take() else { return };
+    if POOL_MAP_PANIC.load(std::sync::atomic::Ordering::SeqCst) {
+        let _ = handle.release();
+        out.count("suspected-release-after-pool-map-invalid-key-panic");
+        return;
+    }
     w.sync_pool(out);
     let before = w.dump();
     let snap = w.main.shared.snapshot();
@@ -1877,6 +1907,7 @@ fn gen_case(out: &mut Out, base: &Path, rng: &mut Rng, steps: u64) {
 }
 
 pub fn run(opts: &Opts) {
+    install_panic_watch();
     let base = scratch_dir(&opts.out, "c12");
     let mut out = Out::new(&opts.out);
     let mut rng = Rng::new(opts.seed ^ 0xC12);
